@@ -37,6 +37,13 @@ type ValueOpts struct {
 }
 
 func scalarValues(fd protoreflect.FieldDescriptor, thorough bool) []protoreflect.Value {
+	if c := ruleCandidates(fd); len(c) > 0 {
+		return append(c, plainScalarValues(fd, thorough)...)
+	}
+	return plainScalarValues(fd, thorough)
+}
+
+func plainScalarValues(fd protoreflect.FieldDescriptor, thorough bool) []protoreflect.Value {
 	switch fd.Kind() {
 	case protoreflect.StringKind:
 		vs := []string{"a", "héllo ✓", "a b/c?d=e&f#g%2F+", "\"\\\n"}
